@@ -94,7 +94,7 @@ fn corpus_case(rng: &mut Rng, small: bool, sel: usize) -> ConnCase {
 
 fn ctl(base: ConnCase) -> CtlCase {
     let end = base_mode(&base);
-    CtlCase { write_err: None, base, cut: None, end, handlers: Handlers::Sequential, fresh: false, vanish_first: 0, vanish_data: vec![], prelude: vec![], gaps: vec![], events: false }
+    CtlCase { write_err: None, base, cut: None, end, handlers: Handlers::Sequential, fresh: false, vanish_first: 0, vanish_data: vec![], prelude: vec![], prelude_open: vec![], gaps: vec![], events: false }
 }
 
 fn obs_key(o: &Outcome) -> (Vec<String>, Vec<u8>, bool, Vec<String>) {
@@ -541,7 +541,20 @@ pub fn midline_family(id0: usize, rng: &mut Rng, out: &mut Vec<String>) {
         ]);
         c.prelude.push(p.to_vec());
     }
+    // ... and connections that stay open without getting anywhere: silent from the start, stalled in
+    // the middle of a head or of a small body, or waiting after a request the server refused
+    let m = if rng.chance(1, 2) { rng.range(1, 4) } else { 0 };
+    for _ in 0..m {
+        let p: &[u8] = *rng.pick(&[
+            &b""[..],
+            &b"POST /stall HTTP/1.1\r\nHost: s\r\nContent-Length: 16\r\n\r\nabcde"[..],
+            &b"POST /stall HTTP/1.0\r\nContent-Length: 1024\r\n\r\n"[..],
+            &b"GET /v2 HTTP/2.0\r\nHost: s\r\n\r\n"[..],
+            &b"GET /stall HTTP/1.1\r\nHost"[..],
+        ]);
+        c.prelude_open.push(p.to_vec());
+    }
     c.fresh = true;
     let o = execute(&c, &default_cfg(rng));
-    out.push(line_of(id0, &c, &o, &format!("i_fam=midline prelude={} panicked={}", n, if o.panicked { 1 } else { 0 })));
+    out.push(line_of(id0, &c, &o, &format!("i_fam=midline prelude={} stalled={} panicked={}", n, m, if o.panicked { 1 } else { 0 })));
 }
